@@ -9,7 +9,9 @@ Definition prog_GetMdState : list act := [AcqMdib; ReadContent; ReadVersion; Rel
 Definition prog_GetMdStateAll : list act := [AcqMdib; ReadContent; ReadVersion; RelMdib].
 Definition prog_GetMdDescription : list act := [AcqMdib; ReadContent; ReadVersion; RelMdib].
 Definition prog_GetMdDescriptionAll : list act := [AcqMdib; ReadContent; ReadVersion; RelMdib].
+Definition prog_GetMdDescriptionGen : list act := [AcqMdib; ReadContent; ReadVersion; RelMdib].
+Definition prog_GetMdStateGen : list act := [AcqMdib; ReadContent; ReadVersion; RelMdib].
 Definition prog_GetContextStates : list act := [AcqMdib; ReadContent; ReadVersion; RelMdib].
 Definition prog_GetContextStatesAll : list act := [AcqMdib; ReadContent; ReadVersion; RelMdib].
 Definition prog_commit : list act := [AcqTr; AcqMdib; Commit; Send; RelMdib; RelTr].
-Definition handler_programs : list (list act) := [prog_GetMdib; prog_GetMdState; prog_GetMdStateAll; prog_GetMdDescription; prog_GetMdDescriptionAll; prog_GetContextStates; prog_GetContextStatesAll].
+Definition handler_programs : list (list act) := [prog_GetMdib; prog_GetMdState; prog_GetMdStateAll; prog_GetMdDescription; prog_GetMdDescriptionAll; prog_GetMdDescriptionGen; prog_GetMdStateGen; prog_GetContextStates; prog_GetContextStatesAll].
